@@ -92,12 +92,20 @@ static inline BOOL QList_QString_isEmpty(QList_QString l) { return l.n == 0; }
 enum { RE_UNKNOWN = 0, RE_LINE_GRAMMAR, RE_GLOB };
 typedef struct { int kind; int id; int line; } QRegularExpression;
 typedef struct { int has; int line; int known; } QRegularExpressionMatch;
+/* pattern options: anything but NoPatternOption gives ANOTHER matcher than the documented line grammar / glob (kind unknown) */
+enum { E_QRegularExpression_PatternOption_NoPatternOption = 0, E_QRegularExpression_PatternOption_CaseInsensitiveOption = 1, E_QRegularExpression_PatternOption_DotMatchesEverythingOption = 2,
+       E_QRegularExpression_PatternOption_MultilineOption = 4, E_QRegularExpression_PatternOption_ExtendedPatternSyntaxOption = 8, E_QRegularExpression_PatternOption_InvertedGreedinessOption = 16,
+       E_QRegularExpression_PatternOption_DontCaptureOption = 32, E_QRegularExpression_PatternOption_UseUnicodePropertiesOption = 64 };
 static inline QRegularExpression QRegularExpression_ctor(void) { QRegularExpression r; r.kind = RE_UNKNOWN; r.id = 0; r.line = -1; return r; }
 static inline QRegularExpression QRegularExpression_ctor__QString(QString p)
 { QRegularExpression r; r.kind = RE_UNKNOWN; r.id = nondet_int(); r.line = p.line;
   if (p.tag == T_LIT && p.id == LIT___s___S_________debug_info_warni_3928693b) r.kind = RE_LINE_GRAMMAR;
   if (p.tag == T_ANCH2 && p.grp == 1) r.kind = RE_GLOB;              /* ^ + escape(capture 1 of that line) with \* -> .* + $  =  the glob of that line, anchored */
   return r; }
+typedef struct { int v; } QFlags_QRegularExpression_PatternOption;
+static inline QFlags_QRegularExpression_PatternOption QFlags_QRegularExpression_PatternOption_ctor__QRegularExpression_PatternOption(int o) { QFlags_QRegularExpression_PatternOption f; f.v = o; return f; }
+static inline QRegularExpression QRegularExpression_ctor__QString_QFlags_QRegularExpression_PatternOption(QString p, QFlags_QRegularExpression_PatternOption o)
+{ QRegularExpression r = QRegularExpression_ctor__QString(p); if (o.v != 0) r.kind = RE_UNKNOWN; return r; }
 static inline QString QRegularExpression_escape__QString(QString s) { QString r = s; r.tag = (s.tag == T_CAP && s.grp == 1) ? T_ESC : T_OTHER; return r; }
 BOOL __CPROVER_uninterpreted_glob_matches(int rule_text_id, int cat_id, int cat_len);
 int g_cur_line;                                                        /* the line the line-grammar regex matched last */
